@@ -1,9 +1,29 @@
 ID = 'C21'
 ENTRY = dict(
     props_v='Props/C21.v', harness='c21',
-    level_text='(work in progress)',
-    level_note='',
-    technique='Coq proof (invariant + refinement to a finite map) over a transcription of fs/hashmap.go; structural differential check against the real fs registry',
-    trusted_base=[],
-    assumptions=[],
+    level_text='Proof, unbounded, over a transcription of fs/hashmap.go + hashmap.fileregion.go + registrymap.go + registry.go (Hashmap.v). '
+               'The full statement is FALSE of the code and the refutation is reproduced on the implementation (findings/C21.json): '
+               'C21_map_refuted, C21_removed_reappears_refuted, C21_remove_present_refuted, C21_invariant_refuted (witnesses by vm_compute). '
+               'C21_map_partial / C21_run_partial: for EVERY op sequence (Add, Update, UpdateNoLocks, Remove, Get; any hash modulus > 0, any ids, full blocks, any number of segment files) '
+               'outside the hazardous pattern (hazard_free: no write names a stored id that has an empty slot before its record in its scan order; UpdateNoLocks batches name stored ids only; the 1000-file limit is not hit) '
+               'every API result equals a finite map\'s, every cold lookup equals the map, and the invariant Inv holds (no id in two slots, every record in the block its id hashes to). '
+               'C21_lookup_last_written_partial, C21_remove_present_succeeds_partial, C21_removed_never_reappears_partial restate the clauses of the property. '
+               'C21_hazard_is_exact: whenever the excluded pattern holds, Remove fails on a stored id, Update leaves the id in two slots and Add accepts a stored id, so the hypothesis excludes nothing that works. '
+               'Tie (K2 structural): each history is run on the real fs.NewRegistry over real segment files (hash modulus 1, 2, 3, 250; ids built to collide in block and slot; cold lookups through a fresh registry + fresh L2 cache); '
+               'after every call the raw segment bytes are decoded slot by slot and the model must agree on every API result, the number of segment files, every slot, and on the hazard flag the harness computes from the disk bytes.',
+    level_note='Trusted: Coq kernel; the transcription of the four Go files into Hashmap.v (checked differentially, slot by slot); the translator for handlesPerBlock and the literal 1000 of findOneFileRegion; '
+               'the harness (decoding of segment files, canonicalisation). A block read is assumed to return the bytes last written (crash safety and corruption are C22/C23); '
+               'locking and concurrency are not modelled (one caller at a time).',
+    technique='Coq proof (invariant + refinement to a finite map, induction over op sequences) over a transcription of the Go code; structural differential check of the real on-disk registry against the model',
+    trusted_base=[
+        'modelled: fs.hashmap.findOneFileRegion / findAndAdd / findFileRegion / fetch, registryMap.add/set/remove/fetch, registryOnDisk.Add/Update/UpdateNoLocks/Remove/Get with a cold cache (Hashmap.v, hand transcription tied by the K2 check)',
+        'translator: handlesPerBlock, block and record sizes (Gen/Consts.v), the guard `if i > 1000` and the loop shape of findOneFileRegion (Gen/HashmapConsts.v)',
+        'slot emptiness is the field-wise test is_zero; HashmapProofs.is_zero_bytes proves it equals isZeroData on the encoded 62 bytes for every well-formed handle',
+        'a block read returns the bytes last written (readAndRestoreBlock / cow files are C22, C23); single caller, no concurrent writers; locks always granted',
+        'add hook: /repo/fs/verif_c21.go (build tag verif) shortens lockSectorRetryTimeoutDuration so that Add of a stored id fails at once instead of after 3 minutes',
+    ],
+    assumptions=[
+        'ids are non-nil 16-byte UUIDs (wf_id); a handle with a nil LogicalID is outside the domain',
+        'UpdateNoLocks with several handles is given stored ids only (registryMap.set resolves all slots before writing; every caller in /repo passes stored ids) — C21_batch_upsert_outside_domain shows why',
+    ],
 )
